@@ -9,6 +9,9 @@ import vlib
 from harness import _dist as D
 
 
+ZERO_OK = {("WeibullDistribution", "gamma"), ("NormalDistribution", "mu"), ("LogNormalDistribution", "mu"), ("VonMisesDistribution", "mu")}
+
+
 def sample_for(cname, th, n, rs):
     d = D.get_class(cname)(**th)
     return np.asarray(d.draw_sample(n, random_state=rs))
@@ -108,6 +111,10 @@ def run(ctx):
                         th["gamma"] = rng.uniform(0, 0.5)
                     fx = D.rand_params(rng, cname)
                     fixed = {p: (th[p] if rng.random() < 0.5 else fx[p]) for p in sub}
+                    for p in sub:   # boundary value 0 (as int or float) where it is admissible
+                        if (cname, p) in ZERO_OK and (rep == 0 or rng.random() < 0.3):
+                            fixed[p] = rng.choice([0, 0.0])
+                            th[p] = fixed[p]
                     for data in (("own", "other") if not ctx.quick() or rep == 0 else ("own",)):
                         cases.append({"cls": cname, "theta": th, "fixed": fixed, "fit": len(sub) < len(ps), "data": data,
                                       "n": rng.choice([150, 400]), "seed": rng.randrange(10 ** 6)})
